@@ -415,8 +415,12 @@ def cases(rng, tier, shard, nshards):
         else:
             pts, meta = gen.curve(rng, nmax=60)
             fam = meta['family']
+        lay = None
+        if rng.random() < 0.04:
+            # integral coordinates of magnitude 1e9..1e10 as int64: rectangle areas do not fit int64
+            pts, fam, lay = gen.large_int_curve(rng, nmax=40), 'large-int64', 'i64'
         knees = _knees(rng, len(pts))
-        if r >= 0.5 and rng.random() < 0.12 and len(knees) >= 3:
+        if lay is None and r >= 0.5 and rng.random() < 0.12 and len(knees) >= 3:
             # near-ties that are NOT ties: knee heights that differ from each other by a few parts in 1e10 / 1e13
             pts = pts.copy()
             base = float(pts[np.asarray(knees)[0], 1]) or 1.0
@@ -424,7 +428,7 @@ def cases(rng, tier, shard, nshards):
             steps = np.cumsum(rng.integers(-1, 3, len(knees)))
             pts[np.asarray(knees, dtype=int), 1] = abs(base) * (1.0 + delta * steps)
             fam = fam + '+near-tie-heights'
-        yield {'points': pts, 'family': fam, 'layout': gen.pick_layout(rng, pts, 0.6),
+        yield {'points': pts, 'family': fam, 'layout': lay or gen.pick_layout(rng, pts, 0.6),
                'knees': knees, 'ts': _thresholds(rng, pts, knees),
                'even': bool(rng.random() < 0.2),
                'tx': float(pick(rng, [0.05, 0.1, 0.2])), 'ty': float(pick(rng, [0.0, 0.05]))}
